@@ -380,6 +380,18 @@ public:
 
   T_Sbx* get_sandbox_impl() { return this; }
 
+#ifdef ALLENABY_RLBOX_VERIF
+  // Verification hook (compiled only with -DALLENABY_RLBOX_VERIF): stands for n
+  // further create_sandbox/destroy_sandbox cycles of this sandbox object while it
+  // is not created and has no registrations; their only lasting effect is to
+  // advance the incarnation counter n times
+  void verif_advance_incarnation(uint32_t n)
+  {
+    sandbox_incarnation =
+      static_cast<decltype(sandbox_incarnation)>(sandbox_incarnation + n);
+  }
+#endif
+
   /**
    * @brief Create a new sandbox.
    *
